@@ -680,6 +680,19 @@ func c07Run(t *testing.T, cfg c07Config, seq []c07Step) (sig, detail, trace stri
 		if !check("start: ", rule, 0, false, "at-start", "") {
 			return
 		}
+		// give every member non-initial handler state, so that "state kept" (Resume) and "fresh
+		// state" (Restart) differ from the first fault on
+		for i := 0; i < 2; i++ {
+			if err := Tell(ctx, f.c[i], &c07Inc{}); err != nil {
+				panic(err)
+			}
+			m.c[i].counter++
+			alt.c[i].counter++
+		}
+		vfSettle()
+		if !check("inc: ", rule, 0, false, "at-start", "") {
+			return
+		}
 		for _, st := range seq {
 			sleep(st.gap)
 			if !m.enabled(st) {
@@ -717,10 +730,34 @@ func c07Run(t *testing.T, cfg c07Config, seq []c07Step) (sig, detail, trace stri
 				return
 			}
 		}
-		// let every delayed restart fire, then compare once more
-		sleep(5 * time.Second)
-		sleep(c07Quantum)
-		check("end: ", rule, seq[len(seq)-1].target, false, "at-the-end", " 5s after the last fault")
+		// delayed restarts: the model knows when each one is due ("The nth consecutive restart is
+		// delayed by min(initialDelay << (n-1), maxDelay)"); look at the family 10ms before and 30ms
+		// after every due time, so that the length of the delay is compared too
+		last := seq[len(seq)-1].target
+		for {
+			next := time.Duration(-1)
+			for i := range m.c {
+				if g := m.c[i]; g.exists && g.pendingAt >= 0 && (next < 0 || g.pendingAt < next) {
+					next = g.pendingAt
+				}
+			}
+			if next < 0 {
+				break
+			}
+			if d := next - 10*time.Millisecond - m.now; d > 0 {
+				sleep(d)
+				if !check("before-due: ", rule, last, false, "before-delayed-restart-is-due", " 10ms before the delayed restart is due") {
+					return
+				}
+			}
+			sleep(next + 30*time.Millisecond - m.now)
+			if !check("after-due: ", rule, last, false, "after-delayed-restart-is-due", " 30ms after the delayed restart is due") {
+				return
+			}
+		}
+		// finally nothing may change any more
+		sleep(2 * time.Second)
+		check("end: ", rule, last, false, "at-the-end", " 2s after the last fault or delayed restart")
 	})
 	if p != nil {
 		return "harness-panic", fmt.Sprintf("%v", p), strings.Join(tr, " / "), steps
